@@ -33,24 +33,30 @@ var goals = []string{"canary.txt", "canary.txt", "secret/canary.txt", "rootx/can
 	"../../canary.txt", "croot/a.txt.fasthttp.gz"}
 
 var dotdots = []string{"..", "..", "..", "%2e%2e", "%2E%2E", ".%2e", "%2e.", "%2E.", "..%00", "...", "..;", ". .",
-	"%252e%252e", "%c0%ae%c0%ae", "..%20", ".%2E", "..\x00", "%2e%2e%2e", ".", "%2e"}
+	"%252e%252e", "%c0%ae%c0%ae", "..%20", ".%2E", "..%2500", "%2e%2e%2e", ".", "%2e"}
 
 var separators = []string{"/", "/", "/", "/", "//", "%2f", "%2F", "\\", "%5c", "%5C", "/./", "/%2e/", "%2f%2f", "/\\", "\\/", "///"}
 
 var soup = []string{"/", "/", "/", "//", ".", "..", "..", "%2e", "%2E", "%2f", "%2F", "%5c", "%5C", "\\", "%00", "\x00",
 	"...", "%", "%zz", "%2", "a", "b.txt", "index.html", "a.txt", "sub", "deep", "?", "#", ":", ";", "~", " ", "%20", "+",
 	"é", "\xff", "*", "x..", "xx..", "%2e%2e%2f", "..%2f", "..%5c", "..\\", "canary.txt", "secret", "rootx", "root",
-	"root.fasthttp.gz", ".fasthttp.gz", "%2e%2e", "%252e", "%25", "\r", "\n", "\t", "example.com", "nodex", "%c0%af", "%ef%bc%8f"}
+	"root.fasthttp.gz", ".fasthttp.gz", "%2e%2e", "%252e", "%25", "%0a", "%09", "\t", "example.com", "nodex", "%c0%af", "%ef%bc%8f"}
 
 var nulTokens = []string{"%00", "%00", "\x00", "%00.jpg", "%00/", "/%00", "%00%00", "%2500", "%00/../canary.txt", "%00..", "\x00.txt"}
 
 var suffixTails = []string{"", "", "", "", "%00", "%00.txt", "/", "/.", "/..", "?x=/../", "#/../y", "\x00", "/%2e%2e", ".fasthttp.gz", "%20", "/%2e"}
 
-var hosts = []string{"example.com", "EXAMPLE.com", "example.com:8080", "..", ".", "/", "a/../..", "", "../..", "..%2f",
-	"%2e%2e", "[::1]", "[::1]:80", "a\\..\\b", "..:80", "...", "host\x00x", "user@example.com", "invalid-host",
-	" ", "a b", "canary.txt", "rootx", "secret", "sub", "sub/deep", "..\\..", "example.com.", "xn--e1afmkfd.xn--p1ai",
-	"example.com:..", "@", "%00", "..%00", "example.com/..", "\\", "..;", "EXAMPLE.COM:0", "[..]", "nodex", "1.2.3.4",
-	strings.Repeat("h", 300), strings.Repeat("../", 40) + "canary.txt"}
+// hosts the URI parser accepts (they reach the vhost rewriter as they are) ...
+var hosts = []string{"example.com", "EXAMPLE.com", "example.com:8080", "..", ".", "", "[::1]", "[::1]:80", "..:80", "...",
+	"user@example.com", "invalid-host", "canary.txt", "rootx", "secret", "sub", "example.com.", "xn--e1afmkfd.xn--p1ai",
+	"@", "..;", "EXAMPLE.COM:0", "nodex", "1.2.3.4", "root", "root.fasthttp.gz", "..:", "..@..", "x..", "..x", "~", "a..b",
+	"....", ".:.", "example.com:65535", "..:0", "p", strings.Repeat("h", 300), strings.Repeat("..", 100)}
+
+// ... and hosts it refuses: a server answers 400 before any handler runs, a
+// directly called handler sees path "/" and the raw host.
+var badHosts = []string{"/", "a/../..", "../..", "..%2f", "%2e%2e", "a\\..\\b", "host\x00x", " ", "a b", "sub/deep", "..\\..",
+	"example.com:..", "%00", "..%00", "example.com/..", "\\", "[..]", "..%2f..%2f", "%2e%2e%2f%2e%2e%2fcanary.txt", "..%5c..",
+	strings.Repeat("../", 40) + "canary.txt"}
 
 // (zstd is kept rare: every zstd response costs an 8 MiB window on both sides)
 var encodings = []string{"", "gzip", "gzip", "gzip", "br", "br", "gzip, br", "gzip, deflate, br, zstd", "identity", "gzip;q=0.5, br", "deflate", "zstd, gzip"}
@@ -222,6 +228,9 @@ func genCase(r *rand.Rand, c *config, thorough bool) *testCase {
 	}
 	if r.Intn(hw) == 0 {
 		tc.Host = pick(r, hosts)
+		if r.Intn(4) == 0 {
+			tc.Host = pick(r, badHosts)
+		}
 	}
 	if c.CMode != "off" {
 		if r.Intn(5) > 0 {
